@@ -25,6 +25,11 @@ func genClosures(r *rand.Rand, id string, tier string) string {
 		if r.Intn(4) == 0 {
 			// a Stack expression (any form) that may carry an Unmarshaler of its own: Condition.Unmarshal honours it
 			recv.Xs = []V{{T: 'K', Form: forms[r.Intn(4)], Cfg: Cfg{Kind: 1 + r.Intn(4), Umf: r.Intn(4)}, Xs: []V{{T: 's', S: "x"}}}}
+			if r.Intn(2) == 0 {
+				// ... and a validity closure of its own (2 rejects): the Condition's verdict is the Condition's closure's, or the
+				// built-in one - never what the Stack it holds thinks of itself
+				recv.Xs[0].Cfg.Vpf = 1 + r.Intn(2)
+			}
 		}
 		if r.Intn(5) == 0 {
 			// a Condition expression (any form) that may carry an Unmarshaler of its own, holding a value, a Stack with one, or a
